@@ -35,17 +35,20 @@ def operand_slots(t):
     """name -> function(X) -> term holding X in one operand slot"""
     a, b = T.Field("qa", table=t), T.Field("qb", table=t)
     S = {
-        "arith-left": lambda x: x + 1, "arith-right": lambda x: a - x, "mul-right": lambda x: a * x,
-        "cmp-left": lambda x: x == 1, "cmp-right": lambda x: a == x, "like-left": lambda x: T.BasicCriterion(P.enums.Matching.like, x, T.ValueWrapper("p")),
+        "arith-left": lambda x: T.ArithmeticExpression(P.enums.Arithmetic.add, x, T.ValueWrapper(1)),
+        "arith-right": lambda x: T.ArithmeticExpression(P.enums.Arithmetic.sub, a, x), "mul-right": lambda x: T.ArithmeticExpression(P.enums.Arithmetic.mul, a, x),
+        "cmp-left": lambda x: T.BasicCriterion(P.enums.Equality.eq, x, T.ValueWrapper(1)), "cmp-right": lambda x: T.BasicCriterion(P.enums.Equality.eq, a, x),
+        "like-left": lambda x: T.BasicCriterion(P.enums.Matching.like, x, T.ValueWrapper("p")),
         "and-left": lambda x: T.ComplexCriterion(P.enums.Boolean.and_, x, b == 2), "or-right": lambda x: T.ComplexCriterion(P.enums.Boolean.or_, b == 2, x),
         "not": lambda x: T.Not(x), "neg": lambda x: T.Negative(x), "isnull": lambda x: T.NullCriterion(x), "all": lambda x: T.All(x),
         "in-term": lambda x: T.ContainsCriterion(x, T.Tuple(1, 2)), "in-element": lambda x: T.ContainsCriterion(a, T.Tuple(x, 2)),
-        "between-term": lambda x: T.BetweenCriterion(x, 1, 2), "between-start": lambda x: T.BetweenCriterion(a, x, 2), "between-end": lambda x: T.BetweenCriterion(a, 1, x),
+        "between-term": lambda x: T.BetweenCriterion(x, T.ValueWrapper(1), T.ValueWrapper(2)), "between-start": lambda x: T.BetweenCriterion(a, x, T.ValueWrapper(2)),
+        "between-end": lambda x: T.BetweenCriterion(a, T.ValueWrapper(1), x),
         "bitand-term": lambda x: T.BitwiseAndCriterion(x, 4),
         "function-arg": lambda x: fn.Coalesce(x, 0), "function-arg2": lambda x: fn.Concat(a, x),
-        "case-when": lambda x: P.Case().when(x == 1, a).else_(b), "case-then": lambda x: P.Case().when(a == 1, x).else_(b), "case-else": lambda x: P.Case().when(a == 1, b).else_(x),
+        "case-when": lambda x: P.Case().when(T.BasicCriterion(P.enums.Equality.eq, x, T.ValueWrapper(1)), a).else_(b), "case-then": lambda x: P.Case().when(a == 1, x).else_(b), "case-else": lambda x: P.Case().when(a == 1, b).else_(x),
         "tuple-element": lambda x: T.Tuple(a, x), "array-element": lambda x: T.Array(a, x), "bracket": lambda x: T.Bracket(x),
-        "aggregate-arg": lambda x: fn.Sum(x), "aggregate-filter": lambda x: fn.Sum(a).filter(x == 1),
+        "aggregate-arg": lambda x: fn.Sum(x), "aggregate-filter": lambda x: fn.Sum(a).filter(T.BasicCriterion(P.enums.Equality.eq, x, T.ValueWrapper(1))),
         "analytic-arg": lambda x: an.Sum(x).over(a), "analytic-partition": lambda x: an.Rank().over(x), "analytic-orderby": lambda x: an.Rank().over(a).orderby(x),
         "cast-arg": lambda x: fn.Cast(x, "INT"),
     }
